@@ -307,7 +307,7 @@ class Check:
             canaries = 1
             if not ok:
                 sub.vacuity.append(f'{obs[0].name}: hypotheses unsatisfiable (vacuous)')
-        timeout = 20000 if self.tier == 'quick' else 60000
+        timeout = int(os.environ.get('VF_TIMEOUT_MS') or (20000 if self.tier == 'quick' else 60000))
         recs = []
         for ob in obs:
             # refutation hint: a model of hyps ∧ ¬goal ∧ hint is a genuine counter-model of the obligation (the hint
@@ -317,8 +317,8 @@ class Check:
                 ob.note = 'counter-model found inside the hinted input sub-class'
                 rec = ObRec(ob)
                 rec.witness = concretise(ob)
-                rec.goal_str = str(ob.goal)[:4000]
-                rec.hyps_str = [str(h)[:600] for h in ob.hyps[-40:]]
+                rec.goal_str = _pp(ob.goal, 4000)
+                rec.hyps_str = [_pp(h, 600) for h in ob.hyps[-40:]]
                 recs.append(rec)
                 continue
             try:
@@ -336,8 +336,8 @@ class Check:
             rec = ObRec(ob)
             if ob.status == 'refuted':
                 rec.witness = concretise(ob)
-                rec.goal_str = str(ob.goal)[:4000]
-                rec.hyps_str = [str(h)[:600] for h in ob.hyps[-40:]]
+                rec.goal_str = _pp(ob.goal, 4000)
+                rec.hyps_str = [_pp(h, 600) for h in ob.hyps[-40:]]
             elif len(recs) < 2:
                 rec.goal_str = str(ob.goal)[:300]
             recs.append(rec)
@@ -609,6 +609,18 @@ class Check:
 
 
 # ---------------------------------------------------------------------------------------- helpers
+def _pp(t, limit):
+    """printed form of a term, truncated: z3's Python pretty-printer is very slow on large terms (nested ite tables), so
+    those are printed by the C printer (s-expression prefix); small terms keep the usual form"""
+    try:
+        s = t.sexpr()
+        if len(s) > 4 * limit:
+            return s[:limit]
+    except Exception:       # noqa: BLE001
+        pass
+    return str(t)[:limit]
+
+
 def load_findings():
     p = os.path.join(VERIF, 'known_findings.json')
     if not os.path.exists(p):
